@@ -23,7 +23,8 @@ RULE = (
 )
 ASSUMPTIONS = [
     "solver tolerance newton_atol = 1e-9; every returned row is judged by the residual recomputed through the "
-    "System API: h + W_g la_g + W_c la_c + W_N la_N, g, c, g_S, min(la_N, g_N), each <= 1e-6*(1+force scale)",
+    "System API: h + W_g la_g + W_c la_c + W_N la_N, g, c, g_S, min(la_N, g_N), each <= 1e-7*(1+force scale), i.e. 100x the "
+    "requested tolerance (the unchanged solvers stay below 1e-8 in 400 generated problems)",
     "frame indifference: nodal positions of the moved problem equal R0 r + b and nodal rotation matrices R0 A "
     "(compared as matrices) within 1e-6*(1+L); both runs must have converged in all load steps",
     "early stop: fewer rows than load steps (Newton) or a last arc-length parameter strictly inside the requested "
@@ -61,6 +62,8 @@ def _case(draw):
     solver = draw(st.sampled_from(["Newton", "Riks", "Riks"]))
     return {"kind": kind, "solver": solver, "nsteps": draw(st.integers(1, 8)),
             "preload": draw(st.sampled_from([0.0, 0.3, 0.6])) if solver == "Newton" else 0.0,
+            # the model carries an initial velocity (it is also used for dynamics); statics must ignore it
+            "u0": [draw(gen.f(-3, 3)) for _ in range(6)] if draw(st.booleans()) else None,
             "k": [draw(gen.f(5, 40)) for _ in range(3)], "F": [draw(gen.f(-3, 3)) for _ in range(3)],
             "la_arc0": draw(gen.f(0.01, 0.2)), "span1": draw(gen.f(0.5, 2.0)), "max_load_steps": draw(st.integers(1, 30))}
 
@@ -107,7 +110,8 @@ def build_springs(spec):
     from cardillo.forces import Force
 
     system = sysbuild.new_system(0.0)
-    rb = RigidBody(1.0, np.diag([0.1, 0.2, 0.3]), q0=np.array([0.5, 0.2, -0.1, 1.0, 0, 0, 0]), name="rb")
+    u0 = np.array(spec["u0"], dtype=float) if spec.get("u0") else None
+    rb = RigidBody(1.0, np.diag([0.1, 0.2, 0.3]), q0=np.array([0.5, 0.2, -0.1, 1.0, 0, 0, 0]), u0=u0, name="rb")
     system.add(rb)
     anchors = [[0.0, 0.0, 0.0], [2.0, 1.0, 0.5], [0.5, -1.5, 1.0], [-1.0, 0.5, -1.0], [1.0, -0.5, 2.0], [0.0, 2.0, -1.0]]
     offs = [[0.2, 0, 0], [0, 0.2, 0], [0, 0, 0.2], [-0.2, 0, 0], [0, -0.2, 0], [0, 0, -0.2]]
@@ -126,7 +130,7 @@ def build_springs(spec):
     return system
 
 
-def equilibrium(res, system, sol, site, feats, tol=1e-6):
+def equilibrium(res, system, sol, site, feats, tol=1e-7):
     D = sysbuild.dense
     t, q = np.asarray(sol.t, dtype=float), np.asarray(sol.q, dtype=float)
     la_g = np.asarray(sol.la_g) if sol.la_g is not None else np.zeros((len(t), 0))
@@ -247,7 +251,7 @@ def check(spec):
     else:
         early = len(t) > 0 and 0.0 <= t[-1] <= spec["span1"]
     res.ok()
-    if early and not any(("max_load_steps" in m) or ("Returning solution" in m) or ("stopped" in m.lower()) for m in msgs):
+    if early and not any(("max_load_steps" in m) or ("Returning solution" in m) or ("No load step" in m) or ("stopped" in m.lower()) for m in msgs):
         res.fail("early_stop_announced", site, None, feats,
                  f"run ended at load parameter {t[-1] if len(t) else None!r} inside [0, {spec.get('span1', 1.0)}] after "
                  f"{len(t) - 1} steps (max_load_steps={spec.get('max_load_steps')}) without a warning")
